@@ -588,4 +588,68 @@ theorem zip_eq_range_map (hs : List Str) (row : List Data) (hl : hs.length = row
     simp [List.getD, List.getElem?_eq_getElem hk, List.getElem?_eq_getElem hk']
   · rw [List.getElem?_eq_none (by simp; omega), List.getElem?_eq_none (by simp; omega)]
 
+/-! ### decimal strings -/
+
+
+theorem digitVal_digitChar : ∀ d, d < 10 → digitVal (Nat.digitChar d) = some d := by decide
+
+theorem parseDigits_append (l : Str) (c : Char) : ∀ acc, parseDigits (l ++ [c]) acc =
+    (parseDigits l acc).bind fun a => (digitVal c).map fun d => a * 10 + d := by
+  induction l with
+  | nil => intro acc; simp [parseDigits]; cases digitVal c <;> simp [parseDigits]
+  | cons x xs ih =>
+    intro acc
+    simp only [List.cons_append, parseDigits]
+    cases digitVal x with
+    | none => simp
+    | some d => simp [ih]
+
+theorem parseDigits_toDigits (n : Nat) : parseDigits (Nat.toDigits 10 n) 0 = some n := by
+  induction n using Nat.strongRecOn with
+  | _ n ih =>
+    rw [Nat.toDigits_eq_if (by decide)]
+    split
+    · rename_i h
+      simp [parseDigits, digitVal_digitChar n h]
+    · rename_i h
+      rw [parseDigits_append, ih (n / 10) (by omega)]
+      simp [digitVal_digitChar (n % 10) (by omega)]
+      omega
+
+
+theorem digit_ne_sign {c : Char} (h : c.isDigit = true) : c ≠ '+' ∧ c ≠ '-' := by
+  constructor <;> (intro hc; subst hc; simp [Char.isDigit] at h)
+
+theorem parseInt_intToStr (signed : Bool) (lo hi v : Int) (hlo : lo ≤ v) (hhi : v ≤ hi)
+    (hs : v < 0 → signed = true) : parseInt signed lo hi (intToStr v) = some v := by
+  have hpd := parseDigits_toDigits v.natAbs
+  have hdig : ∀ c ∈ Nat.toDigits 10 v.natAbs, c ≠ '+' ∧ c ≠ '-' := fun c hc =>
+    digit_ne_sign (Nat.isDigit_of_mem_toDigits (by decide) (by decide) hc)
+  have hne : Nat.toDigits 10 v.natAbs ≠ [] := Nat.toDigits_ne_nil
+  unfold intToStr
+  by_cases hv : v < 0
+  · simp only [hv, if_true]
+    cases hds : Nat.toDigits 10 v.natAbs with
+    | nil => exact absurd hds hne
+    | cons d rest =>
+      rw [hds] at hpd
+      have hsg := hs hv
+      simp only [parseInt, hsg, and_true, or_true, if_true, hpd]
+      have : -(v.natAbs : Int) = v := by omega
+      simp [this, hlo, hhi]
+  · simp only [hv, if_false]
+    have hv' : (v.natAbs : Int) = v := by omega
+    cases hds : Nat.toDigits 10 v.natAbs with
+    | nil => exact absurd hds hne
+    | cons d rest =>
+      rw [hds] at hpd hdig
+      have hd := hdig d List.mem_cons_self
+      cases rest with
+      | nil =>
+        simp only [parseInt, hd.1, hd.2, or_self, if_false, hpd, hv']
+        simp [hlo, hhi]
+      | cons d2 rest2 =>
+        simp only [parseInt, hd.1, hd.2, false_and, or_self, if_false, hpd, hv']
+        simp [hlo, hhi]
+
 end De
